@@ -357,7 +357,7 @@ def report_failure(scn, prop, f, batch_seed):
         print("HARNESS: replay of %s in a fresh interpreter did not reproduce (rc=%d)\n%s\n%s" % (
             path, out.returncode, out.stdout[-2000:], out.stderr[-2000:]))
         return 2
-    print("violation: %s" % doc["detail"])
+    print("violation: %s" % (doc["detail"] if len(doc["detail"]) < 1500 else doc["detail"][:1500] + " ...[see replay file]"))
     print("  minimised to %d non-zero choices in %d re-executions; triggers: %s" % (
         len(doc["triggers"]), used, ", ".join(doc["triggers"][:12])))
     print("VIOLATION property=%s replay=%s" % (prop, path), flush=True)
